@@ -207,8 +207,11 @@ func (r *FeatureLocal) addPendingApproval(msg *api.Message) {
 }
 
 func (r *FeatureLocal) ApproveOrDenyWrite(msg *api.Message, err model.ErrorType) {
+	// a write without a msgCounter is not pending, see addPendingApproval
 	if r.Role() != model.RoleTypeServer ||
-		msg.DeviceRemote == nil {
+		msg.DeviceRemote == nil ||
+		msg.RequestHeader == nil ||
+		msg.RequestHeader.MsgCounter == nil {
 		return
 	}
 
